@@ -122,7 +122,7 @@ theorem exec_ok (I M) (fr : Frameable I M) (p : Prog Int) : ∀ (c : Cfg) (ancho
     intro c anchor hch hw
     obtain ⟨h1, h2, h3⟩ := hw
     refine ⟨fr.emitI _ _ h1, ?_⟩
-    show ChainOK I M (c.st.emit (.invoke cb.name m e)) ({ k := k, evts := e, anchor := anchor, susp := c.st } :: c.stack)
+    show ChainOK I M (c.st.emit (.invoke cb m e)) ({ k := k, evts := e, anchor := anchor, susp := c.st } :: c.stack)
     exact ⟨fr.emitM _ _ _ (fr.refl _), h3, hch⟩
 
 /-- every API program is safe ⇒ every machine step preserves `CfgOK` -/
